@@ -169,6 +169,14 @@ def run(chk):
                detail="; ".join(f"{k}: {v}" for k, v in AUDITED.items()))
     chk.floor("negative-base powers seen (symmetry_factor)", counts["negpow"], 1)
     # ---- definite parity flag ------------------------------------------------------------------------------------------------------
+    n_sites = parity_rule(chk, src, tn)
+    chk.note(tainted_functions=n_tainted, sites=dict(counts), flag_sites=dict(n_sites), audited=AUDITED, files=["src/ekore/**"])
+    chk.explanation = "Taint from the Mellin moment; effect rules; definite parity flag at every parity-dependent lookup."
+
+
+def parity_rule(chk, src, tn, scope=("ekore.", "eko."), rule="parity-flag-is-definite", floors=True):
+    """every call that reaches a parity-dependent harmonic sum passes a definite parity flag (shared with C29 for the matching
+    elements): literal boolean, the caller's own flag, or a local computed from configuration values"""
     fget = src.func("ekore.harmonics.cache.get")
     parity_keys = set()
     for n in ast.walk(fget.node):
@@ -182,7 +190,7 @@ def run(chk):
     n_sites = collections.Counter()
     per_func_flags = collections.defaultdict(set)
     for q, f in src.funcs.items():
-        if not q.startswith(("ekore.", "eko.")):
+        if not q.startswith(tuple(scope)):
             continue
         for c in src.calls_in(f):
             r = src.resolve_call(f, c)
@@ -199,7 +207,7 @@ def run(chk):
             if val is None or (isinstance(val, ast.Constant) and val.value is None):
                 # symmetry_factor's own recursion guard
                 n_sites["omitted"] += 1
-                chk.fail("parity-flag-is-definite", q, f"`{ast.unparse(c)[:70]}` does not pass the parity flag: the callee falls back to (-1)**N, "
+                chk.fail(rule, q, f"`{ast.unparse(c)[:70]}` does not pass the parity flag: the callee falls back to (-1)**N, "
                          f"which is not real-analytic", where=where, instance=f"{r.qname.split('.')[-1]}:{key or ''}")
             elif isinstance(val, ast.Constant) and isinstance(val.value, bool):
                 n_sites[str(val.value)] += 1
@@ -211,16 +219,16 @@ def run(chk):
                 n_sites["computed boolean"] += 1
             else:
                 n_sites["other"] += 1
-                chk.fail("parity-flag-is-definite", q, f"`{ast.unparse(c)[:70]}` passes `{ast.unparse(val)}` as parity flag: not a literal boolean nor the "
+                chk.fail(rule, q, f"`{ast.unparse(c)[:70]}` passes `{ast.unparse(val)}` as parity flag: not a literal boolean nor the "
                          f"caller's own flag", where=where, instance=f"{r.qname.split('.')[-1]}:{key or ''}")
     if not n_sites["omitted"] and not n_sites["other"]:
-        chk.ok("parity-flag-is-definite", "ekore", f"call sites: {dict(n_sites)}", how="definite-flag dataflow")
-    chk.floor("definite parity flags", n_sites["True"] + n_sites["False"] + n_sites["pass-through"], 60)
+        chk.ok(rule, "ekore", f"call sites: {dict(n_sites)}", how="definite-flag dataflow")
+    if floors:
+        chk.floor("definite parity flags", n_sites["True"] + n_sites["False"] + n_sites["pass-through"], 60)
     mixed = {k: v for k, v in per_func_flags.items() if len(v) > 1}
     chk.decide(not mixed, "one-parity-per-cache", "ekore", f"parity-dependent lookups on one cache with both flags: {sorted(mixed)[:3]}: a slot filled under "
                f"one parity is read under the other", how="call-site rule")
-    chk.note(tainted_functions=n_tainted, sites=dict(counts), flag_sites=dict(n_sites), audited=AUDITED, files=["src/ekore/**"])
-    chk.explanation = "Taint from the Mellin moment; effect rules; definite parity flag at every parity-dependent lookup."
+    return n_sites
 
 
 def _definite_local(f, name, tainted):
